@@ -48,7 +48,7 @@ EXTRA_MODULES = {
     "C15": ["Tie.StatsLane"],
     "C16": ["Kernels.MaskChannels", "Tie.StateMachines"],
     "C17": ["Tie.StateMachines"],
-    "C18": ["Tie.Plan", "Tie.Pfits"],
+    "C18": ["Tie.Plan", "Tie.Pfits", "Tie.PfitsCalib"],
     "C19": ["Tie.Prange", "C19Steps"],
     "C20": ["Tie.WriterOps", "Tie.Bits", "Tie.SigprocTables", "Tie.SigprocCodec", "Tie.WriterArith"],
 }
